@@ -563,6 +563,8 @@ class CollectiveGroupingContext(EventPairDetectionContext):
         src_event.pop(_KEY_TYPE, "")
         dst_event.pop(_KEY_TYPE, "")
         src_event.pop("dur")
+        # flow arrows have no duration: a leftover 'dur' would still steer the final (ts, -dur) sort
+        dst_event.pop("dur", None)
 
         aiulog.log(aiulog.TRACE, "FLOW create: ", src_event, dst_event)
         return src_event, dst_event
